@@ -58,6 +58,10 @@ class FcdWorld(au.CutWorld):
                 first = m.load(st, first.loc)
             except AnalysisError:
                 first = None
+        if first is not None and (au.is_ch(first) or is_popped(first)) and not self.prog.is_ws(p) and p.endswith("::<impl char>::len_utf8"):
+            # a question about the character's encoded size, asked to compute a byte position: not a question about
+            # what the character *is* — the discipline just does not follow hand-made position arithmetic
+            raise AnalysisError("byte positions are computed from char::len_utf8 by hand: the first-change discipline follows positions returned by find / char_indices only")
         if first is not None and (au.is_ch(first) or is_popped(first)) and not self.prog.is_ws(p) and "::<impl char>::" in p:
             raise ClassRefinement("the code asks %s about a character: the answer is not determined by the character classes %s the rule is stated over" % (p, self.alphabet))
         return au.CutWorld.call(self, m, st, callee, args, term)
